@@ -1,1 +1,221 @@
-harnesses! {}
+//! C03 — orientation and point-location predicates are exact.
+//!
+//! (a) integer kernel vs exact sign on G(8) (cross-checks E2's reading of the MIR);
+//! (b) float delegation on ill-conditioned frames: two vertices concrete and far apart, the third
+//!     = concrete base + symbolic (i,j)*ulp.  `robust::orient2d` is replaced by the exact model
+//!     S-ORIENT; if geo stops routing a decision through it (naive formula, SimpleKernel, f32 cast,
+//!     swapped sign / operands) the float arithmetic is executed symbolically and the solver
+//!     finds the classic sign flips on these frames.
+use crate::gen::*;
+use crate::oracle::*;
+use crate::Src;
+use geo::coordinate_position::{coord_pos_relative_to_ring, CoordPos};
+use geo::kernels::{Kernel, Orientation};
+use geo::winding_order::{Winding, WindingOrder};
+use geo::{Contains, GeoNum, Intersects};
+use geo_types::{coord, Coord, Line, LineString, Triangle};
+
+fn ori(sign: i8) -> Orientation {
+    if sign > 0 {
+        Orientation::CounterClockwise
+    } else if sign < 0 {
+        Orientation::Clockwise
+    } else {
+        Orientation::Collinear
+    }
+}
+
+pub fn orient_int<S: Src>(s: &mut S) {
+    let (p, q, r) = (gp(s, 8), gp(s, 8), gp(s, 8));
+    let want = ori(orient(p, q, r) as i8);
+    assert!(<i16 as GeoNum>::Ker::orient2d(ci(p), ci(q), ci(r)) == want, "i16 kernel differs from the exact sign");
+    let c32 = |p: P| -> Coord<i32> { coord! {x: p.0 as i32, y: p.1 as i32} };
+    assert!(<i32 as GeoNum>::Ker::orient2d(c32(p), c32(q), c32(r)) == want, "i32 kernel differs from the exact sign");
+    let c64 = |p: P| -> Coord<i64> { coord! {x: p.0 as i64, y: p.1 as i64} };
+    assert!(<i64 as GeoNum>::Ker::orient2d(c64(p), c64(q), c64(r)) == want, "i64 kernel differs from the exact sign");
+    vcover!(want == Orientation::Collinear && p != q && q != r, "collinear distinct points");
+    vcover!(want == Orientation::Clockwise, "clockwise");
+}
+
+/// A frame: q and r concrete and far apart, p = base + (i,j)*ulp; everything is an integral
+/// multiple of ulp = 1/scale_inv.  Returns the points as f64 and as exact integers (units of ulp).
+pub struct Frame {
+    pub p: Coord<f64>,
+    pub q: Coord<f64>,
+    pub r: Coord<f64>,
+    pub ip: (i128, i128),
+    pub iq: (i128, i128),
+    pub ir: (i128, i128),
+}
+
+pub const N_FRAMES: usize = 4;
+
+pub fn frame<S: Src>(s: &mut S, k: usize) -> Frame {
+    frame2(s, k, false)
+}
+
+/// `around`: for frame 0 move q to (-12,-12) so that p lies inside the segment's bounding box
+pub fn frame2<S: Src>(s: &mut S, k: usize, around: bool) -> Frame {
+    // (scale_inv, bound, base, q, r) ; all in f64
+    let (scale_inv, base, q, r): (f64, (f64, f64), (f64, f64), (f64, f64)) = match k {
+        // Kettner et al.: p near (0.5,0.5) in steps of 2^-53, q=(12,12), r=(24,24)
+        0 => (9007199254740992.0, (0.5, 0.5), if around { (-12.0, -12.0) } else { (12.0, 12.0) }, (24.0, 24.0)),
+        // integer frame at 2^52: the anti-diagonal through (2^52,0),(0,2^52)
+        1 => (1.0, (2251799813685120.0, 2251799813685120.0), (4503599627370496.0, 0.0), (0.0, 4503599627370496.0)),
+        // nearly parallel long segment far from the origin, steps of 2^-20
+        2 => (1048576.0, (100000000.0, 100000000.5), (0.0, 0.5), (200000000.0, 200000000.5)),
+        // small frame: steps of 2^-30 around (1,1) against the diagonal through the origin
+        _ => (1073741824.0, (1.0, 1.0), (-3.0, -3.0), (17.0, 17.0)),
+    };
+    let (i, j) = (s.u8(), s.u8());
+    let ulp = 1.0 / scale_inv;
+    let p = coord! { x: base.0 + (i as f64) * ulp, y: base.1 + (j as f64) * ulp };
+    let toi = |v: f64| -> i128 { (v * scale_inv) as i128 };
+    unsafe {
+        crate::stubs::SCALE_INV = scale_inv;
+        crate::stubs::BOUND = 1.0e18 * 4.0;
+    }
+    Frame {
+        p,
+        q: coord! {x: q.0, y: q.1},
+        r: coord! {x: r.0, y: r.1},
+        ip: (toi(base.0) + i as i128, toi(base.1) + j as i128),
+        iq: (toi(q.0), toi(q.1)),
+        ir: (toi(r.0), toi(r.1)),
+    }
+}
+
+fn det128(a: (i128, i128), b: (i128, i128), c: (i128, i128)) -> i128 {
+    (b.0 - a.0) * (c.1 - a.1) - (b.1 - a.1) * (c.0 - a.0)
+}
+fn sg(d: i128) -> i8 {
+    if d > 0 {
+        1
+    } else if d < 0 {
+        -1
+    } else {
+        0
+    }
+}
+
+/// the float kernel itself on the frame
+pub fn float_kernel<S: Src>(s: &mut S, k: usize) {
+    let f = frame(s, k);
+    let want = ori(sg(det128(f.iq, f.ir, f.ip)));
+    assert!(<f64 as GeoNum>::Ker::orient2d(f.q, f.r, f.p) == want, "f64 kernel differs from the exact sign on an ill-conditioned frame");
+    let want2 = ori(sg(det128(f.ip, f.iq, f.ir)));
+    assert!(<f64 as GeoNum>::Ker::orient2d(f.p, f.q, f.r) == want2, "f64 kernel (rotated operands) differs from the exact sign");
+    vcover!(want == Orientation::Collinear, "exactly collinear");
+    vcover!(want == Orientation::Clockwise, "clockwise by less than rounding error");
+    vcover!(want == Orientation::CounterClockwise, "counter-clockwise by less than rounding error");
+}
+
+/// point-on-segment and segment-segment intersects
+pub fn float_line<S: Src>(s: &mut S, k: usize) {
+    let f = frame2(s, k, true);
+    let d = det128(f.iq, f.ir, f.ip);
+    let l = Line::new(f.q, f.r);
+    let inbox = |p: (i128, i128), a: (i128, i128), b: (i128, i128)| p.0 >= a.0.min(b.0) && p.0 <= a.0.max(b.0) && p.1 >= a.1.min(b.1) && p.1 <= a.1.max(b.1);
+    let on = d == 0 && inbox(f.ip, f.iq, f.ir);
+    assert!(l.intersects(&f.p) == on, "Line.intersects(Coord) flipped by rounding");
+    assert!(l.contains(&f.p) == (on && f.ip != f.iq && f.ip != f.ir), "Line.contains(Coord) flipped by rounding");
+    // a segment from p to the concrete corner (r.x, q.y), which is off the line q-r
+    let far = coord! { x: f.r.x, y: f.q.y };
+    let ifar = (f.ir.0, f.iq.1);
+    let l2 = Line::new(f.p, far);
+    let (o1, o2) = (sg(d), sg(det128(f.iq, f.ir, ifar)));
+    let (o3, o4) = (sg(det128(f.ip, ifar, f.iq)), sg(det128(f.ip, ifar, f.ir)));
+    let want = (o1 * o2 <= 0 && o3 * o4 <= 0) && !(o1 == 0 && o2 == 0);
+    assert!(l.intersects(&l2) == want, "Line.intersects(Line) flipped by rounding");
+    assert!(l2.intersects(&l) == want, "Line.intersects(Line) not symmetric on an ill-conditioned frame");
+    vcover!(on, "query exactly on the long segment");
+    vcover!(!on && d != 0, "query off the segment by less than rounding error");
+}
+
+/// ring / triangle classification and winding of the thin triangle (q, r, p)
+pub fn float_ring<S: Src>(s: &mut S, k: usize) {
+    let f = frame(s, k);
+    let d = det128(f.iq, f.ir, f.ip);
+    vassume!(d != 0); // valid (non-degenerate) ring
+    let ring = LineString::new(vec![f.q, f.r, f.p, f.q]);
+    let w = ring.winding_order();
+    assert!(w == Some(if d > 0 { WindingOrder::CounterClockwise } else { WindingOrder::Clockwise }), "winding_order flipped by rounding");
+    // the midpoint-ish vertex p itself is on the boundary; q+ (one ulp step off q towards the inside) is decided exactly
+    assert!(coord_pos_relative_to_ring(f.p, &ring) == CoordPos::OnBoundary, "ring vertex not on the boundary");
+    let t = Triangle(f.q, f.r, f.p);
+    assert!(!t.contains(&f.p), "Triangle.contains(vertex)");
+    assert!(t.intersects(&f.p), "Triangle.intersects(vertex)");
+    vcover!(d > 0, "counter-clockwise sliver");
+    vcover!(d < 0, "clockwise sliver");
+    core::mem::forget(ring);
+}
+
+/// a query point against the long edge of a fat triangle: q, r, apex far on the left side
+pub fn float_triangle<S: Src>(s: &mut S, k: usize) {
+    let f = frame2(s, k, true);
+    let d = det128(f.iq, f.ir, f.ip);
+    // apex = q rotated: clearly counter-clockwise of q->r
+    let apex = coord! { x: f.q.x - (f.r.y - f.q.y), y: f.q.y + (f.r.x - f.q.x) };
+    let t = Triangle(f.q, f.r, apex);
+    let inbox = f.ip.0 >= f.iq.0.min(f.ir.0) && f.ip.0 <= f.iq.0.max(f.ir.0) && f.ip.1 >= f.iq.1.min(f.ir.1) && f.ip.1 <= f.iq.1.max(f.ir.1);
+    vassume!(inbox && f.ip != f.iq && f.ip != f.ir);
+    // near the edge q-r and far from the other two edges: inside iff strictly left of q->r
+    assert!(t.contains(&f.p) == (d > 0), "Triangle.contains(Coord) flipped by rounding near an edge");
+    assert!(t.intersects(&f.p) == (d >= 0), "Triangle.intersects(Coord) flipped by rounding near an edge");
+    let ring = LineString::new(vec![f.q, f.r, apex, f.q]);
+    let want = if d > 0 { CoordPos::Inside } else if d == 0 { CoordPos::OnBoundary } else { CoordPos::Outside };
+    assert!(coord_pos_relative_to_ring(f.p, &ring) == want, "coord_pos_relative_to_ring flipped by rounding near an edge");
+    vcover!(d == 0, "query exactly on the edge");
+    vcover!(d > 0, "query inside by less than rounding error");
+    vcover!(d < 0, "query outside by less than rounding error");
+    core::mem::forget(ring);
+}
+
+/// f32 instantiation: casts to f64 must be lossless and reach the same predicate
+pub fn float_kernel_f32<S: Src>(s: &mut S) {
+    // p = (0.5 + i*2^-24, 0.5 + j*2^-24), q=(12,12), r=(24,24)
+    let (i, j) = (s.u8(), s.u8());
+    unsafe {
+        crate::stubs::SCALE_INV = 16777216.0;
+        crate::stubs::BOUND = 1.0e12;
+    }
+    let ulp = 1.0f32 / 16777216.0;
+    let p: Coord<f32> = coord! { x: 0.5 + (i as f32) * ulp, y: 0.5 + (j as f32) * ulp };
+    let (q, r): (Coord<f32>, Coord<f32>) = (coord! {x: 12.0, y: 12.0}, coord! {x: 24.0, y: 24.0});
+    let k = 16777216i128;
+    let ip = (k / 2 + i as i128, k / 2 + j as i128);
+    let want = ori(sg(det128((12 * k, 12 * k), (24 * k, 24 * k), ip)));
+    assert!(<f32 as GeoNum>::Ker::orient2d(q, r, p) == want, "f32 kernel differs from the exact sign");
+    vcover!(want == Orientation::Collinear, "exactly collinear");
+    vcover!(want == Orientation::Clockwise, "clockwise");
+}
+
+harnesses! {
+    fn c03_orient_int_g8(s) { orient_int(s) }
+
+    #[kani::stub(robust::orient2d, crate::stubs::orient2d_exact)] fn c03_kernel_f64_fr0(s) { float_kernel(s, 0) }
+    #[kani::stub(robust::orient2d, crate::stubs::orient2d_exact)] fn c03_kernel_f64_fr1(s) { float_kernel(s, 1) }
+    #[kani::stub(robust::orient2d, crate::stubs::orient2d_exact)] fn c03_kernel_f64_fr2(s) { float_kernel(s, 2) }
+    #[kani::stub(robust::orient2d, crate::stubs::orient2d_exact)] fn c03_kernel_f64_fr3(s) { float_kernel(s, 3) }
+    #[kani::stub(robust::orient2d, crate::stubs::orient2d_exact)] fn c03_kernel_f32(s) { float_kernel_f32(s) }
+
+    #[kani::stub(robust::orient2d, crate::stubs::orient2d_exact)] fn c03_line_f64_fr0(s) { float_line(s, 0) }
+    #[kani::stub(robust::orient2d, crate::stubs::orient2d_exact)] fn c03_line_f64_fr1(s) { float_line(s, 1) }
+    #[kani::stub(robust::orient2d, crate::stubs::orient2d_exact)] fn c03_line_f64_fr2(s) { float_line(s, 2) }
+    #[kani::stub(robust::orient2d, crate::stubs::orient2d_exact)] fn c03_line_f64_fr3(s) { float_line(s, 3) }
+
+    #[kani::unwind(6)] #[kani::stub(robust::orient2d, crate::stubs::orient2d_exact)] fn c03_ring_f64_fr0(s) { float_ring(s, 0) }
+    #[kani::unwind(6)] #[kani::stub(robust::orient2d, crate::stubs::orient2d_exact)] fn c03_ring_f64_fr1(s) { float_ring(s, 1) }
+    #[kani::unwind(6)] #[kani::stub(robust::orient2d, crate::stubs::orient2d_exact)] fn c03_ring_f64_fr2(s) { float_ring(s, 2) }
+    #[kani::unwind(6)] #[kani::stub(robust::orient2d, crate::stubs::orient2d_exact)] fn c03_ring_f64_fr3(s) { float_ring(s, 3) }
+
+    #[kani::unwind(6)] #[kani::stub(robust::orient2d, crate::stubs::orient2d_exact)] fn c03_triangle_f64_fr0(s) { float_triangle(s, 0) }
+    #[kani::unwind(6)] #[kani::stub(robust::orient2d, crate::stubs::orient2d_exact)] fn c03_triangle_f64_fr1(s) { float_triangle(s, 1) }
+    #[kani::unwind(6)] #[kani::stub(robust::orient2d, crate::stubs::orient2d_exact)] fn c03_triangle_f64_fr2(s) { float_triangle(s, 2) }
+    #[kani::unwind(6)] #[kani::stub(robust::orient2d, crate::stubs::orient2d_exact)] fn c03_triangle_f64_fr3(s) { float_triangle(s, 3) }
+
+    #[kani::stub(robust::orient2d, crate::stubs::orient2d_exact)] fn c03_sanity_must_fail(s) {
+        float_kernel(s, 0);
+        assert!(false, "sanity twin reached its end");
+    }
+}
